@@ -275,7 +275,7 @@ def verify_lemma(name) -> FunctionResult:
         res.obligations = ex.obligations
         res.params = dict(entry.env)
         res.heap_initial = st.heap.initial
-        res.axioms = base_axioms(st.heap)
+        res.axioms = base_axioms(st.heap) + theory_axioms(lm.theories)
         for o in ex.obligations:
             o.axioms = res.axioms
             o.func = res.key
